@@ -12,7 +12,7 @@ from .engine import Engine, State, Obligation, some, none, ok, err
 from .models import MODELS
 
 VERIF = os.path.dirname(os.path.dirname(os.path.abspath(__file__)))
-EVID = os.path.join(VERIF, 'evidence')
+EVID = os.environ.get('VERIF_EVIDENCE_DIR') or os.path.join(VERIF, 'evidence')      # the override is for development runs (other seeds) that must not touch the committed evidence
 KNOWN = os.path.join(VERIF, 'known_findings.json')
 
 _MIR = None
